@@ -16,7 +16,9 @@ from harness.props import c06
 PROP = 'C07'
 LEAN_TARGETS = ['VivProps.C07']
 DRIVER = 'Topo'
-REQUIRED_THEOREMS = []
+REQUIRED_THEOREMS = ['keys_exactly_declared', 'glob_one_entry_per_current_child', 'output_port_empty',
+                     'all_port_subtree', 'declared_variable_current_value', 'expire_complete',
+                     'view_unchanged_by_value_update', 'fresh', 'fresh_states']
 ANCHORS = [
     ('vivarium/core/store.py', ['Store.schema_topology', 'Store.build_topology_views', 'Store.get_path',
                                 'Store.get_value', 'Store.outer_path', 'view_values',
